@@ -15,7 +15,7 @@ RULE = ('every ordered selection of <= K of the binding operations {X = f(Y), Y 
         'a chain, inside a structure), the asserting clause continuing with true / a use p(W) of the fact / fail, run '
         'to exhaustion or abandoned after its first answer; followed by every later use alone, and by every pair (one of 4 uses, then one of 4 probing uses), from {p(a), '
         'p(b), p(f(b)), p(g(a,b)), p(g(a,a)), one clause using the fact twice (p(A),p(B),A=a,B=b), two simultaneously suspended '
-        'enumerations p(A) and p(B) bound differently, two simultaneously suspended ground uses such as p(g(a,a)) and p(g(b,b))}; through compiled clauses and through the Python API (nested '
+        'enumerations p(A) and p(B) bound differently, two simultaneously suspended ground uses such as p(g(a,a)) and p(g(b,b)), a use followed by a five-solution goal on the same variable}; through compiled clauses and through the Python API (nested '
         'unify generators + assert_fact). Every step is executed on the real engine and on the reference model (copy at '
         'assert, fresh variables per use) and the observations compared. states = distinct observation traces; '
         'transitions = engine operations; non-trivial = the stored fact contains a variable or a structure')
@@ -26,8 +26,12 @@ a, b = A('a'), A('b')
 OPS = [(X, F('f', Y)), (Y, a), (X, Y), (Y, F('g', Z)), (Z, b)]
 ASSERTS = [F('p', X), F('p', F('f', Y)), F('p', ('v', ('_', 1))), F('p', F('g', X, Y)), F('p', F('g', Y, Y))]
 CONTS = ['true', 'use', 'fail']
-USES = ['pa', 'pb', 'pfb', 'pgab', 'pgaa', 'twice', 'double', 'gdouble']
+USES = ['pa', 'pb', 'pfb', 'pgab', 'pgaa', 'twice', 'double', 'gdouble', 'enum']
 UCLAUSE = (F('u', V('A'), V('B')), conj(call(F('p', V('A'))), call(F('p', V('B'))), call(F('=', V('A'), a)), call(F('=', V('B'), b))))
+# a use of the fact followed by a goal that binds what the use left open, in several ways (backtracking
+# into that goal must undo its binding also inside the variables that came from the fact)
+ECLAUSES = [(F('e', V('A')), conj(call(F('p', V('A'))), call(F('m2', V('A'))))),
+            (F('m2', a), None), (F('m2', b), None), (F('m2', F('f', a)), None), (F('m2', F('g', a, b)), None), (F('m2', F('g', b, b)), None)]
 
 
 def bounds(tier):
@@ -53,7 +57,7 @@ def use_sequences():
     out += [(u,) for u in USES]
     # every use followed by each of three "probing" uses (a ground call, the clause using the fact
     # twice, two suspended enumerations)
-    out += [(u1, u2) for u1 in ('pa', 'pfb', 'twice', 'double') for u2 in ('pa', 'twice', 'double', 'gdouble')]
+    out += [(u1, u2) for u1 in ('pa', 'pfb', 'twice', 'double') for u2 in ('pa', 'twice', 'double', 'gdouble', 'enum')]
     return out
 
 
@@ -78,6 +82,12 @@ def do_use(w, use, is_ref):
         while w.step(h) and n < 30:
             n += 1
         return ('count', n)
+    if use == 'enum':
+        h = w.start(F('e', qa))
+        rows = []
+        while w.step(h) and len(rows) < 40:
+            rows.append(w.observe([qa], h))
+        return ('rows', tuple(rows))
     if use == 'twice':
         goal = F('u', qa, qb)
         h = w.start(goal)
@@ -188,12 +198,11 @@ def run_case(flavor, ops, pos, ai, cont, mode, uses, pytext):
     """-> ('ok', trace, steps, nontrivial) | ('skip', why) | ('violation', sig, detail)"""
     clause = clause_for(ops, pos, ai, cont)
     rw = RefWorld(steps=5000, depth=40)
-    rw.load([clause, UCLAUSE])
+    rw.load([clause, UCLAUSE] + ECLAUSES)
     iw = ImplWorld()
+    iw.load(compile_cached(show_program([UCLAUSE] + ECLAUSES)))
     if flavor == 'compiled':
         iw.load(pytext)
-    else:
-        iw.load(compile_cached(show_program([UCLAUSE])))
     trace = []
     plan_ = [('scenario', None)] + [('use', u) for u in uses] + [('read', None)]
     nsteps = 0
@@ -256,7 +265,7 @@ def run_shard(spec):
             continue
         clause = clause_for(ops, pos, ai, cont)
         try:
-            pytext = impl.compile_text(show_program([clause, UCLAUSE]))
+            pytext = impl.compile_text(show_program([clause]))
         except Exception as e:  # noqa: BLE001
             acc.n['evaluations'] += 1
             acc.n['validated'] += 1
@@ -266,6 +275,8 @@ def run_shard(spec):
             if flavor == 'api' and cont == 'fail':
                 continue
             for ui, uses in enumerate(useqs):
+                if len(ops) >= 3 and len(uses) > 1 and kmax == 3:
+                    continue   # quick: pairs of later uses only after <= 2 binding operations
                 acc.n['evaluations'] += 1
                 r = run_case(flavor, ops, pos, ai, cont, mode, uses, pytext)
                 if r[0] == 'skip':
@@ -288,7 +299,7 @@ def run_shard(spec):
 
 def replay(case):
     clause = clause_for(tuple(case['ops']), case['pos'], case['ai'], case['cont'])
-    pytext = impl.compile_text(show_program([clause, UCLAUSE]))
+    pytext = impl.compile_text(show_program([clause]))
     r = run_case(case['flavor'], tuple(case['ops']), case['pos'], case['ai'], case['cont'], case['mode'], tuple(case['uses']), pytext)
     if r[0] == 'violation':
         return [(r[1], r[2])]
